@@ -78,6 +78,9 @@ class SegmentWorld(World):
             # repeatable field; three of them, apart from each other, stand for the rest
             base = segs[seg][-1].num if segs.get(seg) else 0
             nums = (base + 1, base + 4, base + 6)
+            if base < 8 and rng.random() < 0.5:
+                # field numbers on both sides of a change in the number of digits (9 | 10, and 100 for Z segments)
+                nums = (base + 1, 9, 10, 12) if not seg.startswith('Z') else rng.choice([(2, 9, 10, 15), (9, 10, 99, 100)])
             dt = 'ST' if seg.startswith('Z') else 'varies'
             self.seg = seg
             self.rows = {'%s_%d' % (seg, k): tables.FieldRow(seg, '%s_%d' % (seg, k), k, 'leaf', dt, None, (0, -1), None, None,
@@ -132,6 +135,17 @@ class SegmentWorld(World):
             return self.long[name].lower() if self.rng.random() < 0.7 else self.long[name]
         return name.capitalize()
 
+    def sub_of(self, name):
+        """name of the second component of a composite field whose second component is a textual leaf (the one that
+        value_for fills), else None"""
+        row = self.rows[name]
+        if row.kind != 'sequence':
+            return None
+        comps = tables.components(self.version, row.datatype)
+        if len(comps) > 1 and comps[1].kind == 'leaf' and comps[1].datatype in TEXTUAL and comps[1].card[1] != 0 and comps[1].ok:
+            return comps[1].name
+        return None
+
     def value_for(self, name):
         v = self.val()
         row = self.rows[name]
@@ -178,7 +192,14 @@ class SegmentWorld(World):
             kinds += ['copy']
             if allow_copy_elem:
                 kinds += ['copy_elem']
+        # a grandchild addressed THROUGH the proxy (seg.field.component): the proxy stands for the first repetition, whatever
+        # the number of repetitions - deleting or writing the second component touches that repetition only
+        sub = self.sub_of(name)
+        if reps and sub is not None and self.chars()['COMPONENT'] in reps[0]:
+            kinds += ['del_sub', 'set_sub']
         k = rng.choice(kinds)
+        if k in ('del_sub', 'set_sub'):
+            return [k, el, name, self.spelling(name), sub, self.val().replace('v', 'g')]
         if k == 'setidx_own':
             i, j = rng.sample(range(len(reps)), 2)
             return ['setidx_own', el, name, i, j]
@@ -225,6 +246,10 @@ class SegmentWorld(World):
             self.guard(lambda: setattr(f, 'value', op[3]))
         elif k == 'del':
             self.guard(lambda: delattr(el, op[3]))
+        elif k == 'del_sub':
+            self.guard(lambda: delattr(getattr(el, op[3]), op[4].lower()))
+        elif k == 'set_sub':
+            self.guard(lambda: setattr(getattr(el, op[3]), op[4].lower(), op[5]))
         elif k == 'delidx':
             self.guard(lambda: getattr(el, op[2]).__delitem__(op[3]))
         elif k == 'remove':
@@ -265,6 +290,10 @@ class SegmentWorld(World):
         name = op[2]
         if k == 'setidx_own':
             m[name][op[3]] = m[name][op[4]]
+            return
+        if k in ('del_sub', 'set_sub'):
+            first = m[name][0].split(self.chars()['COMPONENT'])[0]
+            m[name][0] = first if k == 'del_sub' else first + self.chars()['COMPONENT'] + op[5]
             return
         if k == 'setidx_view':
             m[name][op[3]] = op[4]
